@@ -76,6 +76,30 @@ func checkC14(c *Ctx, r *Report) {
 	// every record type's header and every ID-string length decode (shared with C07)
 	checkMinimalEncodings(c, r, func(m minimalEncoding) bool { return m.Type == "SDR" || m.Type == "FullSensorRecord" })
 
+	// the walk's own requests and replies: a body read asks for the bytes the walk asked for, and
+	// the two timestamps compared before and after the walk are the ones on the wire, whatever
+	// their value (layout tables shared with C06 and C07)
+	r.Rule("sdr-command-layouts", "Get SDR requests, Get SDR / Reserve SDR Repository replies and the repository info's timestamps have the specified layout for every field value", 10)
+	{
+		sdrCmd := func(t string) bool {
+			return strings.HasPrefix(t, "GetSDR") || strings.HasPrefix(t, "ReserveSDRRepository")
+		}
+		var specs []layerSpec
+		for _, sp := range requestSpecs {
+			if sdrCmd(sp.Type) {
+				specs = append(specs, sp)
+			}
+		}
+		compareSpec(c, r, specs, "wire", map[string][]string{})
+		specs = nil
+		for _, sp := range responseSpecs {
+			if sdrCmd(sp.Type) {
+				specs = append(specs, sp)
+			}
+		}
+		compareSpec(c, r, specs, "field", map[string][]string{})
+	}
+
 	walk, mu := c.findSDRWalk()
 	if walk == nil {
 		r.Rule("key-is-record-id", "", 1)
